@@ -63,7 +63,10 @@ def gen_cases(tier, seed):
             o["skip_time"] = 0.2 * o["solve_time"]
         drive = {"A": S.field_spec(rng, dev, o, str(rng.choice(["uniform", "ramp"])), b=b),
                  "currents": S.current_spec(rng, dev, o, "const" if nt else "none", strength=0.3)}
-        cases.append({"device": dev, "options": o, "drive": drive, "monitors": ["adaptive"], "kind": kind, "cost": 25 if scr else 6})
+        case = {"device": dev, "options": o, "drive": drive, "monitors": ["adaptive"], "kind": kind, "cost": 25 if scr else 6}
+        if k % 8 in (0, 6):
+            case["history"] = ["used", "used_moved"][(k // 8) % 2]  # the Device object was solved before with other options
+        cases.append(case)
     return cases
 
 
